@@ -96,6 +96,8 @@ TypeOK == /\ ended \in BOOLEAN /\ (ended => cbs = << >>)
 \* an interest-end callback is called exactly once, never more
 EndCallbackAtMostOnce == \A j \in 1..Len(ends) : ends[j].fired <= 1
 EndCallbackFiredIffNotWaiting == \A j \in 1..Len(ends) : ends[j].waiting <=> ends[j].fired = 0
+\* an interest-end callback only ever waits while someone is interested
+WaitingOnlyWhileInterest == \A j \in 1..Len(ends) : ends[j].waiting => AnyInterest(cbs)
 \* once the pipe has ended nobody waits any more
 EndedMeansAllFired == ended => \A j \in 1..Len(ends) : ends[j].fired = 1
 \* a callback receives the tombstone at most once
